@@ -81,6 +81,28 @@ CHECKS = {
              "non-symmetric / wrongly shaped / length-mismatched constraint matrices, wrong-length parameter lists, limits without bounds, Poisson data that is negative or fractional, wrong container type, unsorted bin edges, wrong number of bin heights, "
              "cycle-closing and unknown graph dependencies, assignments to function / alias nodes. TLC proves on the models that a rejected call changes nothing; the replay shows the code raises and that all later reads are unaffected.",
         note="Trusted: TLC and the adapters of C02/C03/C04/C12. Exception types are not compared. Reserved model-parameter names, unknown cost identifiers etc. are constructor-level and checked once each."),
+    "C05": dict(
+        category="exploration", design_ref="DESIGN.md 4.12, 5/C05",
+        technique="TLA+ spec Scenario.tla computes the generalised-least-squares solution, its covariance, chi2 and ndf as EXACT rationals over a grid of two-parameter linear problems (bases, data, weights, fixed parameter = deleted column, constraint = extra row) and TLC checks the GLS identities on it; every grid scenario is fitted for real (both backends, xy and indexed fits, two start points) and compared with the rationals; correlated covariances through random problems with a numpy closed form",
+        text="The numbers are a minimizer's, so the claim is exploration: the specification is an exact reference on a grid (928 / 3596 scenarios), not a model of MIGRAD. Values must agree within 0.02 sigma, covariance 2 %, chi2 1e-3, asymmetric = +- symmetric within 3 %. "
+             "Multi-fits with shared linear parameters are checked against the joint GLS solution in C11.",
+        note="Trusted: TLC integer arithmetic, harness/adapters/scenario.py, numpy for the float extension (well-conditioned, centred polynomial bases)."),
+    "C06": dict(
+        category="exploration", design_ref="DESIGN.md 5/C06",
+        technique="TLA+ spec NlScenario.tla enumerates the admissible nonlinear configurations (5 xy families + Poisson histogram + unbinned; uncertainty mix incl. x and model-relative; nonlinear / iterative; fixed; limited inside / active) and schedules the property's own probes as actions (fit, neighbour probes, cross-backend, refit); Minimizer.tla is model-checked for the fixed/limited bookkeeping; histories replayed on real fits",
+        text="Probes: cost at p +- 0.5 sigma along every free parameter (clipped to the limits) on a separate fresh fit must not be lower than the reported minimum by more than 1e-3; the other backend must agree within 0.1 sigma; a second do_fit must not move the optimum by more than 0.05 sigma "
+             "(the fixed-point clause, the only optimality clause used with the iterative algorithm); fixed values bit-exact; limits closed. Optimality is probed at finitely many neighbours; nothing proves convergence.",
+        note="Trusted: TLC, harness/adapters/nlscenario.py (catalogue with fixed noise realisations). Known finding KF-C06-SCIPY-BOUNDS is reported as such."),
+    "C07": dict(
+        category="exploration", design_ref="DESIGN.md 4.5, 5/C07",
+        technique="TLA+ spec FixedIndex.tla (transcribed index bookkeeping between full and free parameter vectors / matrices, TLC-exhaustive for every fixed subset up to 5 parameters) replayed on both real minimizer adapters; Scenario.tla's exact covariance gives closed forms for symmetric errors, correlation, profiles, cost-rise-1 crossings, 1-sigma contours and the error band on quadratic costs; nonlinear profile points and asymmetric errors are compared with an independent re-minimisation on a separate fit",
+        text="Index part: model checking (62 states, all replayed). Numeric part: exploration with thresholds of 2-6 %.",
+        note="Trusted: TLC, harness/adapters/fixedindex.py, harness/adapters/scenario.py. errordef 0.5 (nll) is exercised through histogram / unbinned fits in C03, C06, C08 only."),
+    "C15": dict(
+        category="exploration", design_ref="DESIGN.md 4.12, 5/C15",
+        technique="TLA+ spec Scenario.tla: TLC checks PermutationInvariant, ParameterOrderEquivariant and UnitEquivariant on the exact rational GLS solution over the grid (and FixedIndex.tla the bookkeeping for fixed parameters in any position); grid scenarios and their transformed images are fitted for real against the exact numbers; metamorphic pairs of real fits (random point permutation with permuted covariance rows/columns, random parameter order with fixed / limited / constrained subsets, y scaled by 10^k, k in -6..6) on linear, quadratic and exponential models with correlated, relative and x uncertainties, both backends",
+        text="Exploration: the laws are proved on the rational reference over the grid and observed on the code for the grid scenarios and for a catalogue of metamorphic cases.",
+        note="Trusted: TLC, harness/adapters/metamorphic.py, harness/adapters/scenario.py. Thresholds: optimum 0.03 sigma, uncertainties 4 %, covariance 6 %, chi2/gof 2e-3. Known finding KF-C15-SCIPY-SMALL-UNITS is reported as such."),
 }
 NOT_APPLICABLE = {
     "C16": "Pure real-valued special-function identity (chi2 CDF and its inverse): no state or transitions, and TLC has neither reals nor exp; "
